@@ -114,7 +114,7 @@ fn simple_case(bs: u32, len: usize, atom: u8, rate: u32, bps: u8) -> Case {
             bps,
             rate,
             bs,
-            full: (len / bs as usize) as u8,
+            full: (len / bs as usize) as u32,
             tail: (len % bs as usize) as u32,
             atoms: [atom; 4],
             rel: 0,
